@@ -341,51 +341,7 @@ def targets(ctx):
 
     SHADOW_PROTO = {"p.proto": 'syntax = "proto3";\npackage p;\nimport "google/protobuf/timestamp.proto";\nimport "google/protobuf/duration.proto";\nmessage Shadow { google.protobuf.Timestamp datetime = 1; google.protobuf.Timestamp other = 2; optional google.protobuf.Duration timedelta = 3; repeated int32 list = 4; repeated int32 more = 5; map<int32, int32> dict = 6; map<int32, int32> d2 = 7; int32 mk20001 = 20001; }\n'}
 
-    # one package per typing construct, each package using ONLY that construct (what a configuration must import /
-    # quote is decided per package, so a construct must work when it is the only one present)
-    def _pkg(name, body, imports=""):
-        return f'syntax = "proto3";\npackage {name};\n{imports}{body}'
-
-    SINGLE_CONSTRUCT = {
-        "only_map.proto": _pkg("only_map", "message M { map<string, int32> m = 1; int32 mk20001 = 20001; }\n"),
-        "only_optional.proto": _pkg("only_optional", "message M { optional int32 o = 1; int32 mk20002 = 20002; }\n"),
-        "only_repeated.proto": _pkg("only_repeated", "message M { repeated string r = 1; int32 mk20003 = 20003; }\n"),
-        "only_wrapper.proto": _pkg("only_wrapper", "message M { google.protobuf.Int32Value w = 1; int32 mk20004 = 20004; }\n", 'import "google/protobuf/wrappers.proto";\n'),
-        "only_oneof.proto": _pkg("only_oneof", "message M { oneof o { int32 a = 1; string b = 2; } int32 mk20005 = 20005; }\n"),
-        "only_plain.proto": _pkg("only_plain", "message M { int32 a = 1; int32 mk20006 = 20006; }\nenum E { E_ZERO = 0; E_MK = 20007; }\n"),
-        "only_msgref.proto": _pkg("only_msgref", "message M { M self_ref = 1; only_plain.M other = 2; only_plain.E e = 3; int32 mk20008 = 20008; }\n", 'import "only_plain.proto";\n'),
-        "only_timestamp.proto": _pkg("only_timestamp", "message M { google.protobuf.Timestamp t = 1; google.protobuf.Duration d = 2; int32 mk20009 = 20009; }\n",
-                                     'import "google/protobuf/timestamp.proto";\nimport "google/protobuf/duration.proto";\n'),
-        "only_unary_service.proto": _pkg("only_unary_service", "message M { int32 a = 1; int32 mk20010 = 20010; }\nservice S { rpc U (M) returns (M); }\n"),
-        "only_stream_service.proto": _pkg("only_stream_service", "message M { int32 a = 1; int32 mk20011 = 20011; }\nservice S { rpc SS (stream M) returns (stream M); rpc US (M) returns (stream M); rpc SU (stream M) returns (M); }\n"),
-        "only_map_of_msg.proto": _pkg("only_map_of_msg", "message M { map<int32, M> m = 1; int32 mk20012 = 20012; }\n"),
-        "only_repeated_msg.proto": _pkg("only_repeated_msg", "message M { repeated M r = 1; int32 mk20013 = 20013; }\n"),
-        "only_optional_msg.proto": _pkg("only_optional_msg", "message M { optional M o = 1; int32 mk20014 = 20014; }\n"),
-        # oneof shapes, one per package: groups of exactly one member (the hand-written explicit-presence idiom), one /
-        # two / three such groups, next to or without a multi-member group, message / enum / wrapper members
-        "oneof_solo1.proto": _pkg("oneof_solo1", "message M { oneof a { int32 x = 1; } int32 mk20015 = 20015; }\n"),
-        "oneof_solo2.proto": _pkg("oneof_solo2", "message M { oneof a { int32 x = 1; } oneof b { string y = 2; } int32 mk20016 = 20016; }\n"),
-        "oneof_solo3.proto": _pkg("oneof_solo3", "message M { oneof a { M x = 1; } oneof b { E y = 2; } oneof c { bytes z = 3; } int32 mk20017 = 20017; }\nenum E { E_ZERO = 0; E_MK = 20018; }\n"),
-        "oneof_solo_and_multi.proto": _pkg("oneof_solo_and_multi", "message M { oneof a { int32 x = 1; } oneof b { string y = 2; bool z = 3; } int32 mk20019 = 20019; }\n"),
-        "oneof_two_messages.proto": _pkg("oneof_two_messages", "message M { oneof a { int32 x = 1; } int32 mk20020 = 20020; }\nmessage N { oneof b { string y = 1; } int32 mk20021 = 20021; }\n"),
-        "oneof_optional_mix.proto": _pkg("oneof_optional_mix", "message M { oneof a { int32 x = 1; } optional int32 o = 2; optional string p = 3; int32 mk20022 = 20022; }\n"),
-        "oneof_wrapper_member.proto": _pkg("oneof_wrapper_member", "message M { oneof a { google.protobuf.Int32Value w = 1; google.protobuf.Timestamp t = 2; } int32 mk20023 = 20023; }\n",
-                                            'import "google/protobuf/wrappers.proto";\nimport "google/protobuf/timestamp.proto";\n'),
-        # fields named like the scalar type names, declared before / between / after the constructs whose annotations
-        # mention those types (repeated, map, optional, wrapper)
-        "builtin_last.proto": _pkg("builtin_last", "message M { repeated int32 nums = 1; map<string, int32> m = 2; optional int32 o = 3; google.protobuf.StringValue w = 4; map<string, string> labels = 5; "
-                                   "repeated string names = 6; optional bool ob = 7; repeated float rf = 8; optional bytes oby = 9; map<int32, bytes> mb = 10; google.protobuf.BoolValue wb = 11; "
-                                   "int32 int = 12; string str = 13; bool bool = 14; float float = 15; bytes bytes = 16; int32 mk20026 = 20026; }\n", 'import "google/protobuf/wrappers.proto";\n'),
-        "builtin_first.proto": _pkg("builtin_first", "message M { int32 int = 12; string str = 13; bool bool = 14; float float = 15; bytes bytes = 16; repeated int32 nums = 1; map<string, int32> m = 2; "
-                                    "optional int32 o = 3; google.protobuf.StringValue w = 4; map<string, string> labels = 5; repeated string names = 6; optional bool ob = 7; repeated float rf = 8; "
-                                    "optional bytes oby = 9; map<int32, bytes> mb = 10; google.protobuf.BoolValue wb = 11; int32 mk20027 = 20027; }\n", 'import "google/protobuf/wrappers.proto";\n'),
-        "builtin_middle.proto": _pkg("builtin_middle", "message M { string first = 1; string str = 2; map<string, string> labels = 3; google.protobuf.StringValue w = 4; repeated int32 nums = 5; int32 int = 6; "
-                                     "optional int32 o = 7; map<int32, int32> mi = 8; google.protobuf.Int32Value wi = 9; bytes bytes = 10; repeated bytes rb = 11; int32 mk20028 = 20028; }\n", 'import "google/protobuf/wrappers.proto";\n'),
-        # type names that end in "None" / look like typing constructs in optional / oneof positions
-        "names_ending_in_none.proto": _pkg("names_ending_in_none", "message ResultOrNone { int32 a = 1; int32 mk20029 = 20029; }\nenum LevelNone { LN_ZERO = 0; LN_ONE = 1; LN_MK = 20030; }\n"
-                                           "message M { optional ResultOrNone r = 1; optional LevelNone l = 2; oneof pick { ResultOrNone x = 3; LevelNone y = 4; } repeated LevelNone rl = 5; int32 mk20031 = 20031; }\n"),
-        "oneof_nested_msg.proto": _pkg("oneof_nested_msg", "message M { message In { oneof a { int32 x = 1; } oneof b { int32 y = 2; } int32 mk20024 = 20024; } In in_ = 1; int32 mk20025 = 20025; }\n"),
-    }
+    from ._shapes import SINGLE_CONSTRUCT
 
     def fixed_cases():
         yield {"fixed": "all_cardinalities_service", "vseeds": [1, 2, 3, 4, 5, 6]}
